@@ -68,10 +68,11 @@ type Module struct {
 	started map[string]string
 
 	// generator-side state
-	planned   map[int]map[int64]bool
-	inflight  map[int]int64
-	responder bool
-	horizon   int64
+	planned    map[int]map[int64]bool
+	inflight   map[int]int64
+	responder  bool
+	horizon    int64
+	bulkLoaded bool
 }
 
 func New() *Module {
@@ -173,9 +174,16 @@ func (m *Module) genesisBulk(n *engine.Node, gs simapp.GenesisState) {
 func (m *Module) Started(w *engine.World) {
 	m.hash[w.Height] = append([]byte{}, w.Node.AppHash()...)
 	m.times[w.Height] = w.Time.Unix()
-	if m.cfg.GenesisBulk == 0 || len(m.reqs) > 0 {
+	m.loadGenesisBulk(w)
+}
+
+// loadGenesisBulk registers the genesis requests of the bulk arm with the model (once; also
+// called by the queue check, which runs after the genesis block already).
+func (m *Module) loadGenesisBulk(w *engine.World) {
+	if m.cfg.GenesisBulk == 0 || m.bulkLoaded {
 		return
 	}
+	m.bulkLoaded = true
 	// the requests the chain starts with are pending requests like any other: made at the
 	// height their record states, due at the height they are queued for
 	n := 0
